@@ -227,7 +227,23 @@ fn cmd_replay(args: &[String], reg: &[ScenarioDef]) -> i32 {
     let def = reg.iter().find(|d| d.name == scenario).expect("unknown scenario");
     let case = v["case"].as_u64().unwrap_or(0);
     let thorough = v["thorough"].as_bool().unwrap_or(false);
-    let (outcome, ctx) = if v["regenerate"].as_bool().unwrap_or(false) {
+    let (outcome, ctx) = if let Some(r) = v.get("range").filter(|r| r.is_object()) {
+        // the violation needs the history of its worker process (state that survives from case to case inside the
+        // code under test): re-run every case that worker ran before, in this one process
+        let seed = v["seed"].as_u64().unwrap_or(0);
+        let from = r["from"].as_u64().unwrap_or(0);
+        let stride = r["stride"].as_u64().unwrap_or(1).max(1);
+        let mut c = from;
+        while c < case {
+            let ctx = Ctx::generate(seed, def.name, c);
+            let _ = run_case(def, ctx, c, thorough);
+            c += stride;
+        }
+        let mut ctx = Ctx::generate(seed, def.name, case);
+        ctx.log_enabled = true;
+        let r = run_case(def, ctx, case, thorough);
+        (r.outcome, r.ctx)
+    } else if v["regenerate"].as_bool().unwrap_or(false) {
         let mut c = Ctx::generate(v["seed"].as_u64().unwrap_or(0), def.name, case);
         c.log_enabled = true;
         let r = run_case(def, c, case, thorough);
